@@ -10,7 +10,10 @@
 //   a     entry length in bytes (clamped to >= 1 unless cfg mode == 2)
 //   b     seed of the piece-wise streaming style (chunk sizes, sputn / sputc /
 //         std::ostream write / put / << / flush)
-//   c     bit0 file object index, bit4 use a fresh LogStreamBuffer
+//   c     bit0 file object index, bit4 use a fresh LogStreamBuffer, bit5 go
+//         through an AsyncLogStream (begin / write / noflush-suspend / end; the
+//         stream appends the final '\n' and calls write() itself, so clause (a)
+//         cannot be evaluated before the hand-over on this path)
 // cfg: page_size, qcap, nfiles, rot_file, rot_every (file object rot_file hands
 //   out a new fd on every rot_every-th check), close_variant (0: join loggers,
 //   then close; 1: close as soon as every write() has returned, loggers still
@@ -20,6 +23,7 @@
 //   public API (probe for the "size 0 == stop marker" defect); 3 close() without
 //   the slot guard (probe for the "close() on a not yet recycled slot" defect).
 #include <babylon/logging/async_file_appender.h>
+#include <babylon/logging/async_log_stream.h>
 #include <babylon/logging/log_entry.h>
 #include <babylon/reusable/page_allocator.h>
 
@@ -30,6 +34,7 @@
 #include <algorithm>
 #include <atomic>
 #include <map>
+#include <memory>
 #include <ostream>
 #include <set>
 #include <string>
@@ -57,7 +62,7 @@ enum { ST_PLANNED = 0, ST_BUILDING = 1, ST_HANDED = 2 };
 
 struct EntryRec {
   int uid = 0, thread = 0, seq = 0, opid = 0, kind = 0, file = 0;
-  bool fresh_buf = false;
+  bool fresh_buf = false, via_stream = false;
   uint64_t style = 0;
   size_t len = 0;
   std::string bytes;            // what is streamed
@@ -130,6 +135,7 @@ struct State {
   std::vector<EntryRec*> entries;
   std::map<int, EntryRec*> by_op;
   std::vector<LogStreamBuffer*> bufs;
+  std::vector<std::vector<std::unique_ptr<babylon::LogStream>>> streams;  // [thread][file]
   std::atomic<int> loggers_done{0};
   int nlog = 0;
   bool close_called = false, close_returned = false;
@@ -150,6 +156,7 @@ void fill_pattern(EntryRec& e) {
     memcpy(d + o, &w, n);
   }
   if (e.len) d[0] = (char)(0x80 | e.uid);
+  if (e.via_stream) d[e.len - 1] = '\n';  // appended by AsyncLogStream::do_end
 }
 
 const char* describe(const EntryRec& e, char* buf, size_t n) {
@@ -328,6 +335,38 @@ void do_entry(int t, const Op& op) {
   if (it == S->by_op.end()) return;
   EntryRec& e = *it->second;
   char b[160];
+  if (e.via_stream) {
+    babylon::LogStream& ls = *S->streams[(size_t)t][(size_t)e.file];
+    Rng r(e.style * 2654435761u + 999);
+    const char* d = e.bytes.data();
+    size_t n = e.len - 1, off = 0;
+    e.state = ST_BUILDING;
+    tl_cur = &e;
+    set_crash_site("log-stream");
+    ls.begin();
+    while (off < n) {
+      size_t c = std::min<size_t>(n - off, (size_t)r.range(1, (int64_t)(2 * S->ps)));
+      switch (r.below(4)) {
+        case 0: ls.write(d + off, c); break;
+        case 1: ls << babylon::StringView(d + off, c); break;
+        case 2: c = 1; ls.write(d[off]); break;
+        default:  // suspend and resume the line: must neither flush nor restart the entry
+          ls.write(d + off, c);
+          ls.noflush(); ls.end(); ls.begin();
+          break;
+      }
+      off += c;
+    }
+    e.state = ST_HANDED;  // end() appends '\n' (may take one more page) and hands the entry to the appender
+    int64_t t0 = now_ns();
+    ls.end();
+    set_crash_site(nullptr);
+    tl_cur = nullptr;
+    if (now_ns() - t0 >= 1000000) probe("write_blocked_on_full_queue");
+    e.api_returned = true;
+    probe("via_async_log_stream");
+    return;
+  }
   LogStreamBuffer local;
   LogStreamBuffer& buf = e.fresh_buf ? local : *S->bufs[(size_t)t];
   buf.set_page_allocator(S->alloc);
@@ -423,7 +462,7 @@ void gen(Rng& r, Plan& p, const GenParams& gp) {
       else o.a = draw_len(r, ps, budget, big_ok);
       if (mode == 2 && r.chance(1, 4)) { o.a = 0; o.kind = K_WRITE; any_empty = true; }
       o.b = (int64_t)(r.next() & 0x3fffffff);
-      o.c = (int64_t)r.below((uint64_t)nfiles) | ((int64_t)r.chance(1, 4) << 4);
+      o.c = (int64_t)r.below((uint64_t)nfiles) | ((int64_t)r.chance(1, 4) << 4) | ((int64_t)r.chance(1, 5) << 5);
       o.id = opid++;
       p.threads[(size_t)t].push_back(o);
     }
@@ -546,6 +585,7 @@ void run(const Plan& p) {
       e->style = (uint64_t)op.b;
       e->file = (int)(op.c & 1) % nfiles;
       e->fresh_buf = (op.c >> 4) & 1;
+      e->via_stream = ((op.c >> 5) & 1) && e->kind == K_WRITE && e->len >= 2 && e->len <= 200000;
       fill_pattern(*e);
       s.entries.push_back(e);
       s.by_op[op.id] = e;
@@ -563,6 +603,10 @@ void run(const Plan& p) {
   s.app.set_page_allocator(s.alloc);
   s.app.set_queue_capacity(s.qcap);
   if (s.app.initialize() != 0) fail("api", "initialize", "initialize() failed");
+  s.streams.resize(nthreads);
+  for (size_t t = 1; t < nthreads; t++)
+    if (s.bufs[t])
+      for (SinkFile* f : s.files) s.streams[t].push_back(babylon::AsyncLogStream::creator(s.app, *f, [](babylon::AsyncLogStream&) {})());
   const int64_t tail_us = std::max<int64_t>(0, std::min<int64_t>(p.get("tail_us", 0), 1000));
   hx::Workers w;
   {
@@ -633,14 +677,15 @@ void run(const Plan& p) {
   closer.join();
   if (s.close_rc != 0) fail("api", "close", "close() returned %d", s.close_rc);
   if (concurrent_close) { probe("close_while_loggers_alive"); w.join(); }
-  if (others_alive() != 0)
-    fail("close-early", "writer-still-running", "close() returned but %d appender thread(s) are still running", others_alive());
   if (s.app._backoff_us >= 20) probe("writer_backoff_slept");
   if (s.app._queue._next_push_index.load(std::memory_order_relaxed) > s.app._queue.capacity()) probe("queue_ring_reused");
   if (s.files.size() > 1 && s.app._destinations.size() > 1) probe("two_destinations");
   // oracles
   if (!s.fault_mode) { check_sinks(); check_fds(); }
   check_ledger();
+  // secondary: close() is documented to shut the writer thread down
+  if (others_alive() != 0)
+    fail("close-early", "writer-still-running", "close() returned but %d appender thread(s) are still running", others_alive());
   for (EntryRec* e : s.entries) if (e->kind == K_DISCARD) { probe("discarded_entries"); break; }
   probe("entries", s.entries.size());
 }
